@@ -16,13 +16,12 @@ Nothing of pymtl3 is imported or run.  The module provides
 * the rule bodies shared by both back-ends (each takes the back-end name).
 """
 import ast
-import copy
 import itertools
 import re
 import string
 
 from .astutil import (norm, walk_no_nested, always_exits, exit_kind, qualname, parent, guards_of, enclosing,
-                      stmt_of, reaching_value)
+                      reaching_value, subst)
 from .errors import AnalysisError
 from .minieval import Evaluator, Raised
 from .report import RuleResult
@@ -615,7 +614,6 @@ class SymExec:
             if before[m] is not None:
                 inner.env[mid] = _mk_call('__carried__', ast.Constant(value=mid))
         inner.conds.append((it, 'loop'))
-        n_out = len(self.outcomes)
         res = self.block(n.body, [inner])
         out = st.fork()
         if len(res) > 1:
@@ -719,6 +717,29 @@ def _strip_str(e):
 MAX_VARIANTS = 256
 
 
+def _stringy(e):
+    """is the expression known to be string valued (so that `+` is concatenation, not arithmetic)?"""
+    e = _strip_str(e) if isinstance(e, ast.JoinedStr) else e
+    if isinstance(e, ast.Constant):
+        return isinstance(e.value, str)
+    if isinstance(e, ast.JoinedStr):
+        return True
+    if isinstance(e, ast.Call):
+        if isinstance(e.func, ast.Name) and e.func.id == 'str':
+            return True
+        if isinstance(e.func, ast.Attribute) and e.func.attr in ('format', 'join', 'center', 'ljust', 'rjust', 'strip',
+                                                                  'lstrip', 'rstrip', 'replace', 'lower', 'upper'):
+            return True
+        return False
+    if isinstance(e, ast.BinOp) and isinstance(e.op, ast.Add):
+        return _stringy(e.left) or _stringy(e.right)
+    if isinstance(e, ast.IfExp):
+        return _stringy(e.body) or _stringy(e.orelse)
+    if isinstance(e, ast.Subscript) and isinstance(e.slice, ast.Slice):
+        return _stringy(e.value)
+    return False
+
+
 def to_variants(expr, conds=()):
     """all (conds, parts) alternatives of a string-valued symbolic expression"""
     res = _tv(expr)
@@ -783,7 +804,7 @@ def _tv(e):
             else:
                 alts.append([([Hole(v)], [])])
         return _prod(alts)
-    if isinstance(e, ast.BinOp) and isinstance(e.op, ast.Add):
+    if isinstance(e, ast.BinOp) and isinstance(e.op, ast.Add) and _stringy(e):
         return _prod([_tv(e.left), _tv(e.right)])
     if isinstance(e, ast.IfExp):
         out = []
@@ -2086,8 +2107,6 @@ def rule_slice(repo, backend):
             hs = [h.text for h in hl]
             cons = f"visit_Slice -> {sk} {hs}"
             n_sl += 1
-            indexed = tri(ast.parse('node.base and node.size', mode='eval').body,
-                          {}, None)
             is_idx = any(norm(t) == 'node.base and node.size' and p is True for t, p in v.conds)
             if is_idx:
                 ok = sk == '⟨0⟩[⟨1⟩+:⟨2⟩]' and hs[:2] == [V_VALUE, 's.visit(node.base)'] and \
@@ -2393,35 +2412,56 @@ def rule_width_cast(repo, backend):
                           "checker gave it", o.node.lineno)
                 else:
                     r.ok(c.mod, fq(c, f), cons, nontrivial=not explicit)
-    # constant attributes
-    n_const = 0
-    CONSTV = r'isinstance\(node\.Type, \w+\.Const\)'
-    for c, f, o in emissions(lk, vis, 'visit_Attribute'):
-        if o.kind != 'return' or o.value is None:
-            continue
-        stores = [(t, val) for t, op, val, cs in o.stores if op is None and norm(t) == "node.sexpr['s_attr']"]
-        exprs = [val for t, val in stores[-1:]] if stores else [o.value]
-        for e in exprs:
-            for v in to_variants(e, o.conds):
-                is_const = any(p is True and re.search(CONSTV, norm(t)) for t, p in v.conds)
-                vecpath = any(p is True and re.search(r'\.Vector\)', norm(t)) for t, p in v.conds) or \
-                    any(p is True and re.search(r'isinstance\(node\.Type\.get_object\(\), (int|Bits)\)', norm(t)) for t, p in v.conds)
-                if not (is_const and vecpath):
-                    continue
-                n_const += 1
-                w = sized_width(v)
-                cons = f"visit_Attribute (constant) -> {v.skeleton()} {[h.text for h in hole_list(v.parts)]}"
-                hl = hole_list(v.parts)
-                if w is None and len(hl) == 1 and isinstance(hl[0].expr, ast.Call) and norm(hl[0].expr.func) == 's._literal_number':
-                    w = 'literal'
-                if w is None:
-                    r.bad(c.mod, fq(c, f), cons, "a constant integer attribute is emitted without an explicit size "
-                          "(context-determined sizing, e.g. 32-bit arithmetic instead of the checked width)", o.node.lineno)
-                else:
-                    r.ok(c.mod, fq(c, f), cons)
-    if n_const == 0:
-        r.bad(vis.mod, vis.name + '.visit_Attribute', 'constant attribute', "no handler emits constant integer attributes "
-              "with an explicit size", 0)
+    # constant attributes: every emission reachable for a constant integer attribute must be sized
+    def scen(truths):
+        def assume(e):
+            t = norm(e)
+            for pat, val in truths:
+                if re.fullmatch(pat, t):
+                    return val
+            return None
+        return assume
+    SC_COMP = scen([(r"isinstance\(node\.Type, \w+\.Const\)", True), (r"isinstance\(node\.Type\.get_dtype\(\), \w+\.Vector\)", True),
+                    (r"isinstance\(node\.value, \w+\.Base\)", True), (r"isinstance\(node\.value\.Type, \w+\.Component\)", True),
+                    (r"isinstance\(node\.value\.Type, \w+\.(Signal|InterfaceView|Const)\)", False),
+                    (r"isinstance\(node\.Type\.get_object\(\), int\)", True), (r"isinstance\(node\.Type\.get_object\(\), Bits\)", False),
+                    (r"is_bitstruct_inst\(.*\)", False)])
+    SC_FIELD = scen([(r"isinstance\(node\.Type, \w+\.Const\)", True), (r"isinstance\(node\.Type\.get_dtype\(\), \w+\.Vector\)", True),
+                     (r"isinstance\(node\.value, \w+\.Base\)", False), (r"isinstance\(node\.value\.Type, \w+\.(Component|InterfaceView)\)", False),
+                     (r"isinstance\(node\.value\.Type, \w+\.(Signal|Const)\)", True),
+                     (r"isinstance\(node\.value\.Type\.get_dtype\(\), \w+\.Struct\)", True),
+                     (r"isinstance\(node\.Type\.get_object\(\), Bits\)", True), (r"isinstance\(node\.Type\.get_object\(\), int\)", False),
+                     (r"node\.Type\.get_object\(\) is None", False), (r"is_bitstruct_inst\(.*\)", False)])
+    att = emissions(lk, vis, 'visit_Attribute')
+    for label, assume in (('component constant s.K', SC_COMP), ('field of a constant struct s.K.f', SC_FIELD)):
+        n_live = 0
+        for c, f, o in att:
+            if o.kind != 'return' or o.value is None:
+                continue
+            if any(p == 'except' for t, p in o.conds):
+                continue
+            stores = [(t, val) for t, op, val, cs in o.stores if op is None and norm(t) == "node.sexpr['s_attr']"]
+            exprs = [val for t, val in stores[-1:]] if stores else [o.value]
+            for e in exprs:
+                for v in to_variants(e, o.conds):
+                    if not possible(v.conds, {}, assume):
+                        continue
+                    n_live += 1
+                    nev += 1
+                    w = sized_width(v)
+                    hl = hole_list(v.parts)
+                    cons = f"visit_Attribute [{label}] -> {v.skeleton()} {[h.text[:60] for h in hl]}"
+                    if w is None and len(hl) == 1 and isinstance(hl[0].expr, ast.Call) and norm(hl[0].expr.func) == 's._literal_number':
+                        w = 'literal'
+                    if w is None:
+                        r.bad(c.mod, fq(c, f), cons, "a constant integer attribute is emitted without an explicit size "
+                              "(context-determined sizing, e.g. 32-bit arithmetic instead of the checked width)", o.node.lineno)
+                    elif w not in (NODE_W, 'literal'):
+                        r.bad(c.mod, fq(c, f), cons, f"the size `{w}` is not the attribute's inferred width", o.node.lineno)
+                    else:
+                        r.ok(c.mod, fq(c, f), cons)
+        if n_live == 0:
+            r.bad(vis.mod, vis.name + '.visit_Attribute', label, "no emission is reachable for this kind of constant attribute", 0)
     # constant array elements (yosys inlines them)
     for c, f, o in emissions(lk, vis, 'visit_Index'):
         if o.kind != 'return':
@@ -2507,10 +2547,6 @@ def _ref_host(W, R, WP, RP):
     return 'raise'
 
 
-class _ConnEv(_Ev):
-    pass
-
-
 def rule_conn(repo, backend):
     r = RuleResult('R-tr-conn', f"[{backend}] every adjacency edge is attributed to exactly one hosting component by the four-case "
                                 f"host relation; connections keep (writer, reader) orientation down to `assign reader = writer`")
@@ -2523,7 +2559,7 @@ def rule_conn(repo, backend):
     # locate the decision chain: the if/elif whose branches add (u, v) to the result dictionary
     adds = [n for n in ast.walk(fn) if isinstance(n, ast.Call) and isinstance(n.func, ast.Attribute) and n.func.attr == 'add'
             and isinstance(n.func.value, ast.Subscript) and len(n.args) == 1 and isinstance(n.args[0], ast.Tuple)]
-    if len(adds) < 4:
+    if len(adds) < 2:
         raise AnalysisError("gen_connections: host decision chain not found")
     chain = None
     for n in ast.walk(fn):
@@ -2578,6 +2614,8 @@ def rule_conn(repo, backend):
             branches.append((cur.test, norm(body_adds[0].func.value.slice)))
         elif always_exits(cur.body) and exit_kind(cur.body) == {'raise'}:
             branches.append((cur.test, 'raise'))
+        elif not body_adds:
+            branches.append((cur.test, 'drop'))
         else:
             raise AnalysisError("gen_connections: branch outside the expected shape")
         if len(cur.orelse) == 1 and isinstance(cur.orelse[0], ast.If):
@@ -2589,6 +2627,8 @@ def rule_conn(repo, backend):
                 branches.append((None, norm(oa[0].func.value.slice)))
             elif always_exits(cur.orelse) and exit_kind(cur.orelse) == {'raise'}:
                 branches.append((None, 'raise'))
+            elif not oa:
+                branches.append((None, 'drop'))
             else:
                 raise AnalysisError("gen_connections: else branch outside the expected shape")
         else:
@@ -2731,7 +2771,7 @@ def rule_conn(repo, backend):
                       "the assign target must be the reader expression (translated and queued second), the source the "
                       "writer expression (queued first)", o.node.lineno)
     r.evaluations = nev
-    r.require_floor(7)
+    r.require_floor(6)
     return r
 
 
@@ -2931,7 +2971,6 @@ def rule_modname(repo, backend):
             rv = reaching_value(nm, sb)
             if rv is not None and nm not in ('arg_names', 'defaults'):
                 mapping[nm] = rv
-        from .astutil import subst
         e2 = subst(idx_e, mapping)
         loop = enclosing(sb, (ast.For,))
         ivar = None
@@ -2944,16 +2983,18 @@ def rule_modname(repo, backend):
         mism = None
         for N in range(1, 5):
             for D in range(0, N + 1):
-                for i in range(N - D, N):
-                    lv = {'arg_names': [0] * N, 'defaults': tuple(range(D)), ivar: i}
-                    ok, j = try_ev(e2, lv)
-                    nev += 1
-                    if not ok:
-                        raise AnalysisError(f"Component._gen_parameters: index outside the abstract domain: {norm(e2)}")
-                    want = i - (N - D)
-                    jj = j if j >= 0 else D + j
-                    if (jj != want or not (-D <= j < D)) and mism is None:
-                        mism = (N, D, i, j, want)
+                for A in range(0, N + 1):
+                    for i in range(max(A, N - D), N):
+                        lv = {'arg_names': [0] * N, 'defaults': tuple(range(D)), ivar: i,
+                              'obj._dsl.args': [0] * A, 'obj._dsl.kwargs': {}, 'argspec.defaults': tuple(range(D)) or None}
+                        ok, j = try_ev(e2, lv)
+                        nev += 1
+                        if not ok:
+                            raise AnalysisError(f"Component._gen_parameters: index outside the abstract domain: {norm(e2)}")
+                        want = i - (N - D)
+                        jj = j if j >= 0 else D + j
+                        if (jj != want or not (-D <= j < D)) and mism is None:
+                            mism = (N, D, i, j, want)
         cons = f"defaults[{norm(idx_e)}]"
         if mism:
             N, D, i, j, want = mism
@@ -3059,8 +3100,14 @@ def rule_sigexpr(repo, backend):
         raise AnalysisError("gen_signal_expr: token application loop not found")
     o = rets[0]
     it, tgt, init, step = o.value.args
-    cons_rev = isinstance(it, ast.Call) and norm(it.func) == 'reversed' and len(it.args) == 1
-    stack = it.args[0] if cons_rev else it
+    def _rev(e):
+        if isinstance(e, ast.Call) and norm(e.func) == 'reversed' and len(e.args) == 1:
+            return e.args[0]
+        if isinstance(e, ast.Subscript) and norm(e.slice) == '::-1':
+            return e.value
+        return None
+    cons_rev = _rev(it) is not None
+    stack = _rev(it) if cons_rev else it
     lp = _loop_parts(stack)
     if lp is None:
         raise AnalysisError("gen_signal_expr: token stack is not built by the parent walk")
@@ -3084,7 +3131,7 @@ def rule_sigexpr(repo, backend):
     if len(iloops) != 1:
         raise AnalysisError("gen_signal_expr: index push loop not recognised")
     i_it, i_tgt, i_init, i_step = iloops[0].args
-    idx_rev = isinstance(i_it, ast.Call) and norm(i_it.func) == 'reversed'
+    idx_rev = _rev(i_it) is not None
     idx_append = norm(i_step).startswith("__carried__('stack') + ")
     slice_first = 'construct_slice' in norm(s_init) and 'construct_slice' not in norm(s_body)
     cons = (f"stack: slice{' first' if slice_first else ' NOT first'}; per object: indices "
@@ -3163,7 +3210,8 @@ def rule_constcache(repo, backend):
                 continue
             elsewhere += [(cc, ff, n) for n in ast.walk(ff) if isinstance(n, ast.Call) and isinstance(n.func, ast.Name)
                           and n.func.id == 'ConstantExtractor']
-    if mk and not elsewhere and len(mk[0].args) == 3 and norm(mk[0].args[2]).endswith('.closure'):
+    cond_guards = [g_ for g_ in guards_of(mk[0]) if g_.kind in ('if', 'loop')] if mk else []
+    if mk and not elsewhere and not cond_guards and len(mk[0].args) == 3 and norm(mk[0].args[2]).endswith('.closure'):
         r.ok(c.mod, fq(c, f), f"{norm(mk[0])} created per block entry")
     else:
         w = elsewhere[0] if elsewhere else None
@@ -3228,7 +3276,6 @@ def _check_struct_instance(r, cls, fdef, what):
     inner = [n for n in _nested_funcs(fdef) if any(isinstance(x, ast.For) for x in ast.walk(n))]
     for g in inner:
         fors = [x for x in walk_no_nested(g) if isinstance(x, ast.For)]
-        gp = [a.arg for a in g.args.args]
         for lp in fors:
             ndim = None
             mm = re.search(r"range\((\w+)\[0\]", norm(lp.iter))
@@ -3608,10 +3655,6 @@ def rule_mangle(repo):
                     vs = to_variants(e)
                     sk = vs[0].skeleton() if vs else '?'
                     okm = len(vs) == 1 and re.fullmatch(r"⟨0⟩__⟨1⟩(⟨\d+⟩)*", sk) is not None
-                    # longer chains  a__b_c  (loop variable / tmpvar prefixes) are not hierarchy mangling
-                    if not okm and len(vs) == 1 and re.fullmatch(r"(__\w+__)?⟨0⟩_⟨1⟩|__\w+__⟨0⟩(_⟨1⟩)?", sk):
-                        n -= 1
-                        continue
                 cons = f"{norm(e)[:80]} -> {sk}"
                 if okm:
                     r.ok(m, qn, cons)
@@ -3659,6 +3702,59 @@ def _dims_position(scope_funcs, own_texts):
                 if rt_ & own_texts and not (lt & own_texts):
                     return 'last'
     return None
+
+
+def _leaf_index_chain(g, nested, acc, gparams):
+    """ordered list of generator parameters that form the wire index at the leaf of the recursion
+    (the accumulator and the parameters emitted directly next to it)"""
+    ex, outs = sym_run(g, rename=not nested)
+    # parameters that are pieces of a mangled name (cwid__<_wid>) are not part of the index
+    name_parts = {x.id for e in _mangle_sites(g) for x in ast.walk(e) if isinstance(x, ast.Name)}
+    gparams = [p_ for p_ in gparams if p_ not in name_parts or p_ == acc]
+    leaf = [o for o in outs if o.kind == 'return' and o.value is not None and
+            not any(isinstance(n, ast.Call) and _callee_name(n) == g.name for n in ast.walk(o.value)) and
+            not any(p == 'loop' for t, p in o.conds)]
+    chains = []
+
+    def names_of(e):
+        segs = flatten_add(e)
+        if all(isinstance(x, ast.Name) and x.id in gparams for x in segs):
+            return [x.id for x in segs]
+        return None
+    for o in leaf:
+        v = o.value
+        # { ..., "idx": <expr> }
+        for d in [n for n in ast.walk(v) if isinstance(n, ast.Dict)]:
+            for k, val in zip(d.keys, d.values):
+                if isinstance(k, ast.Constant) and k.value == 'idx':
+                    nm = names_of(val)
+                    if nm and acc in nm:
+                        chains.append(nm)
+        # "...{wid}{acc}{idx}...".format(...)
+        for n in ast.walk(v):
+            if isinstance(n, ast.Call) and isinstance(n.func, ast.Attribute) and n.func.attr == 'format':
+                for var in to_variants(n):
+                    run, best = [], None
+                    for part in var.parts:
+                        if isinstance(part, Hole) and part.kind == 'expr' and part.text in gparams:
+                            run.append(part.text)
+                        else:
+                            if acc in run:
+                                best = run
+                            run = []
+                    if acc in run:
+                        best = run
+                    if best:
+                        chains.append(best)
+        # the accumulator is handed on as an argument (dtype_conn_gen(d, pid, wid, idx, dtype))
+        if not chains:
+            for n in ast.walk(v):
+                if isinstance(n, ast.Call) and any(isinstance(a, ast.Name) and a.id == acc for a in n.args):
+                    chains.append([acc])
+    uniq = sorted({tuple(c) for c in chains})
+    if not uniq:
+        raise AnalysisError(f"{g.name}: cannot determine how the leaf builds the wire index")
+    return [list(c) for c in uniq]
 
 
 def rule_index_order(repo):
@@ -3730,7 +3826,6 @@ def rule_index_order(repo):
         asc = dims_p is not None and _ascending_range(lp.iter, f"{dims_p}[0]")
         # where do the generator's own dimensions sit in the declared wire?
         ext = []
-        scope = [f] if g is not f else [ff for _, ff in sorted(c.methods().items())]
         for ff in ([f] if g is not f else [ff for cc in lk.mro(top) if cc.mod.rel.startswith(YS_DIR) for ff in cc.methods().values()]):
             for x in ast.walk(ff):
                 if isinstance(x, ast.Call) and x is not call and _callee_name(x) == g.name and not any(x is y for y in ast.walk(g)):
@@ -3754,25 +3849,59 @@ def rule_index_order(repo):
         if by_def:
             scope_funcs += [ff for cc in lk.mro(top) if cc.mod.rel.startswith(YS_DIR) for ff in cc.methods().values()]
         pos = _dims_position(scope_funcs, own_texts)
-        # two levels of recursion with loop indices i0 (outer) then i1: order of the indices in the final wire index
-        order = ['X', 'i0', 'i1'] if mode == 'suffix' else ['i1', 'i0', 'X']
-        if pos == 'first':
-            want = ['i0', 'i1', 'X']
-        elif pos == 'last':
-            want = ['X', 'i0', 'i1']
-        else:
-            want = ['X', 'i0', 'i1'] if init_idx <= {"''", '""'} else None
+        # how the leaf combines the accumulator with the other index parameters (e.g. `{wid}{c_idx}{idx}`)
+        chains = _leaf_index_chain(g, g is not f, ip, gparams)
+        # initial values of the chain's parameters at the external call sites ('' = contributes nothing)
+        dflt = {}
+        pos_args = g.args.args[1:] if g is f else g.args.args
+        for a_, d_ in zip(pos_args[len(pos_args) - len(g.args.defaults):], g.args.defaults):
+            dflt[a_.arg] = norm(d_)
+        verdicts = []
+        for chain in chains:
+            empty = set()
+            for p_ in chain:
+                inits = set()
+                for ff, x in ext:
+                    if p_ in gparams and gparams.index(p_) < len(x.args):
+                        inits.add(norm(x.args[gparams.index(p_)]))
+                    elif any(k.arg == p_ for k in x.keywords):
+                        inits.add(norm([k.value for k in x.keywords if k.arg == p_][0]))
+                    elif p_ in dflt:
+                        inits.add(dflt[p_])
+                    else:
+                        inits.add('?')
+                if inits and inits <= {"''", '""'}:
+                    empty.add(p_)
+            # two levels of recursion with loop indices i0 (outer) then i1: order of the indices in the final wire index
+            order = []
+            for p_ in chain:
+                x0 = [] if p_ in empty else ['X']
+                if p_ == ip:
+                    order += (x0 + ['i0', 'i1']) if mode == 'suffix' else (['i1', 'i0'] + x0)
+                else:
+                    order += x0
+            has_x = 'X' in order
+            if pos == 'first':
+                want = ['i0', 'i1'] + (['X'] if has_x else [])
+            elif pos == 'last':
+                want = (['X'] if has_x else []) + ['i0', 'i1']
+            else:
+                want = ['i0', 'i1'] if not has_x else None
+            verdicts.append((chain, order, want))
+        # the first chain that disagrees decides; otherwise the first one is reported
+        chain, order, want = ([v for v in verdicts if v[2] is None or v[1] != v[2]] or verdicts)[0]
         nm_order = None
         if name_params:
             nm_order = ['i0', 'i1'] if name_params[0][1] == 'suffix' else ['i1', 'i0']
-        cons = f"{g.name}: index {norm(binds[ip])}, name {norm(binds[name_params[0][0]]) if name_params else '-'}; own dims {pos or 'only'}"
+        cons = (f"{g.name}: index {norm(binds[ip])} (leaf: {'+'.join(chain)}), name "
+                f"{norm(binds[name_params[0][0]]) if name_params else '-'}; own dims {pos or 'only'}")
         if want is None:
             raise AnalysisError(f"{where}: cannot relate the generator's dimensions to the declared wire ({sorted(own_texts)})")
         got_i = [x for x in order if x != 'X']
         if not asc:
             r.bad(c.mod, where, cons, f"array elements are enumerated as `{norm(lp.iter)}`, not range(n)", lp.lineno)
         elif order != want or (nm_order is not None and nm_order != got_i):
-            show = lambda o_: ''.join(f"[{x}]" if x != 'X' else '<idx>' for x in o_)
+            show = lambda o_: ''.join(f"[{x}]" if x != 'X' else '<idx>' for x in o_) or '<none>'
             r.bad(c.mod, where, cons, f"for a 2-D array the wire index is built as {show(order)} but the wire is declared with "
                   f"dimensions in the order {show(want)} and the flat name enumerates {'__'.join(nm_order or got_i)}: the "
                   f"connection reaches the transposed (or an out-of-range) element", lp.lineno)
@@ -3859,5 +3988,5 @@ def rule_wire_forms(repo):
                       "(port_wire_gen) but never connects them (no port_connection_gen): a block that writes the whole signal "
                       "and a reader of one field (or vice versa) are not connected in the emitted Verilog", f.lineno)
     r.evaluations = n
-    r.require_floor(3)
+    r.require_floor(2)
     return r
